@@ -651,3 +651,132 @@ def analyse_format_code_output(M, ses, rep):
     if not n_ok:
         raise Inconclusive("format_code has no Ok path")
     return flagged
+
+
+SHAPE_METHODS = ("reset", "increment_block_indent", "increment_additional_indent", "indent", "with_indent", "add_width", "with_additional_indent", "add_indent_level")
+
+
+def analyse_visitor_shapes(M, ses, rep, fs="default"):
+    """the block-only visitors of range formatting (format_stmt_block, format_last_stmt_block): a statement that is not wholly inside the range
+    is walked for the blocks nested in its expressions, and those blocks must be formatted at the indentation whole-file formatting gives
+    them - one block level below the statement, at column 0. With Shape's own methods executed (Shape / Indent as integer structs): every
+    callee that is handed a Shape - directly or inside a closure it is given - receives block_indent = the statement's + 1 and offset 0;
+    a closure that captures the statement's own shape must do that increment itself before it calls format_expression_block."""
+    import z3
+    from .mirsym import Agg, Lazy, RefV, Sym
+    flagged = []
+    funcs = ses.mir("lib", fs)
+    inl = lambda n, g: canon(n).split("::")[-1] in SHAPE_METHODS and g.params and re.search(r"(Shape|Indent)$", g.params[0][1].strip().lstrip("&"))
+    LIM = z3.BitVecVal(2 ** 32, 64)
+
+    def shape_terms(ex, st, v):
+        """-> (block_indent term, offset term) of a Shape value, or None"""
+        v = deref_val(ex, st, v)
+        if isinstance(v, Agg) and re.search(r"(^|::)Shape$", str(v.ty)) and len(v.fields) >= 2:
+            ind = deref_val(ex, st, v.fields[0])
+            o_ = deref_val(ex, st, v.fields[1])
+            if isinstance(ind, Agg) and len(ind.fields) >= 2:
+                b = deref_val(ex, st, ind.fields[1])
+                if isinstance(b, Sym) and isinstance(o_, Sym):
+                    return b.t, o_.t
+            if isinstance(ind, Lazy) and isinstance(o_, Sym):        # the indent is carried over unchanged from a symbolic shape
+                bi = ex.enums.field_index("Indent", "block_indent")
+                b = ex.lazy_child(st, ind, ("field", bi), "usize", ".block_indent")
+                return b.t, o_.t
+        return None
+
+    def lazy_shape_terms(ex, st, lz):
+        T = ex.enums
+        ii, oi = T.field_index("Shape", "indent"), T.field_index("Shape", "offset")
+        bi = T.field_index("Indent", "block_indent")
+        if None in (ii, oi, bi):
+            raise Inconclusive("Shape / Indent layout not found")
+        ind = ex.lazy_child(st, lz, ("field", ii), "Indent", ".indent")
+        b = ex.lazy_child(st, ind, ("field", bi), "usize", ".block_indent")
+        o_ = ex.lazy_child(st, lz, ("field", oi), "usize", ".offset")
+        return b.t, o_.t
+    n = 0
+    for fname in ("format_stmt_block", "format_last_stmt_block"):
+        ex = ses.executor("lib", fs, inline=inl, max_depth=3)
+        ex.max_block_visits = 2
+        fn = ses.need(ex, fname)
+        args = [RefV(ex.fresh_lazy(t.lstrip("&").strip(), p)) if t.startswith("&") else ex.fresh_lazy(t, p) for p, t in fn.params]
+        si = [i for i, (p, t) in enumerate(fn.params) if re.search(r"(^|::)Shape$", t.strip())]
+        if len(si) != 1:
+            raise Inconclusive(f"{fname}: no Shape parameter")
+        shape0 = args[si[0]]
+        captured_param = False
+        for pi, o in enumerate(ex.run(fn, args)):
+            if o.kind != "return":
+                continue
+            pb, po = lazy_shape_terms(ex, o.state, shape0)
+            for ci, t in enumerate(o.trace):
+                if t[0] not in ("havoc", "effect"):
+                    continue
+                callee = t[1].split("::")[-1]
+                snap = t[4] if len(t) > 4 else t[2]
+                for a in (snap or []):
+                    v = deref_val(ex, o.state, a)
+                    cands = [("direct", v)]
+                    if isinstance(v, Agg) and "closure" in str(v.ty):
+                        cands = [("captured", deref_val(ex, o.state, x)) for x in v.fields]
+                    for how, x in cands:
+                        if x is shape0:
+                            if how == "captured":
+                                captured_param = True      # (the closure has to increment: checked on the closure below)
+                                continue
+                            terms = (pb, po)
+                        else:
+                            terms = shape_terms(ex, o.state, x)
+                        if terms is None:
+                            continue
+                        n += 1
+                        b, off = terms
+                        oid = f"visitor-shape/{fname}/path{pi}/call{ci}-{callee}/one-level-below-the-statement"
+                        r, m = ses.obligation(oid, list(o.pc) + [z3.ULT(pb, LIM)], z3.Or(b != pb + 1, off != 0),
+                                              "Shape handed on = statement's block_indent + 1, offset 0")
+                        if r == "sat":
+                            flagged.append((oid, f"{fname} hands {callee} a shape that is not one block level below the statement at column 0: nested blocks of an "
+                                            "out-of-range statement come out at another indentation than whole-file formatting gives them", "visitor-shape", {"function": fname}))
+        if captured_param:
+            cls = [f for nm, l in funcs.items() for f in l if nm.startswith(fname + "::{closure") and
+                   any(s_[0] == "call" and canon(s_[2]).split("::")[-1].endswith("_block") for sts in f.blocks.values() for s_ in sts)]
+            for f in cls:
+                ex2 = ses.executor("lib", fs, inline=inl, max_depth=3)
+                a2 = [RefV(ex2.fresh_lazy(t.lstrip("&").replace("mut ", "").strip(), p)) if t.startswith("&") else ex2.fresh_lazy(t, p) for p, t in f.params]
+                env = a2[0].v if isinstance(a2[0], RefV) else a2[0]
+                for pi, o in enumerate(ex2.run(f, a2)):
+                    if o.kind != "return":
+                        continue
+                    # the Shape the closure captured: the (only) Shape-typed child of its environment that the path read
+                    caps = [ch for (po_, key), ch in ex2.lazy_tab.items() if isinstance(ch, Lazy) and re.search(r"(^|::)Shape$", ch.ty.strip().lstrip("&"))]
+                    for c in find_calls(o.trace, lambda x: x.split("::")[-1].endswith("_block")):
+                        for a in c[1]:
+                            terms = shape_terms(ex2, o.state, a)
+                            v = deref_val(ex2, o.state, a)
+                            if terms is None and isinstance(v, Lazy) and re.search(r"(^|::)Shape$", v.ty.strip()):
+                                terms = lazy_shape_terms(ex2, o.state, v)
+                                caps = [x for x in caps if x is not v] + [v]
+                            if terms is None or not caps:
+                                continue
+                            n += 1
+                            # the captured shape the handed-on shape was computed from: the candidate whose block_indent occurs in the term
+                            base_ = None
+                            for cnd in caps:
+                                if re.search(r"(^|::)Shape$", cnd.ty.strip()):
+                                    cb_, co_ = lazy_shape_terms(ex2, o.state, cnd)
+                                    if str(cb_) in str(terms[0]):
+                                        base_ = (cb_, co_)
+                            if base_ is None:
+                                flagged.append((f"visitor-shape/{f.name}/path{pi}/derived-from-the-captured-shape", f"{f.name}: the shape handed on is not computed from the captured one",
+                                                "visitor-shape", {"function": fname}))
+                                continue
+                            cb, co = base_
+                            oid = f"visitor-shape/{f.name}/path{pi}/one-level-below-the-captured-shape"
+                            r, m = ses.obligation(oid, list(o.pc) + [z3.ULT(cb, LIM)], z3.Or(terms[0] != cb + 1, terms[1] != 0),
+                                                  "closure over the statement's shape: increments the block level and resets the offset itself")
+                            if r == "sat":
+                                flagged.append((oid, f"{f.name} formats nested blocks at the statement's own level", "visitor-shape", {"function": fname}))
+    if n == 0:
+        raise Inconclusive("the range visitors hand no Shape to any callee")
+    return flagged
